@@ -154,6 +154,12 @@ func (p *Printer) LST(imports []refbin.Import, symbols []refbin.Slot, appendMode
 				p.space(false)
 				p.w([]string{"max_id", "$8"}[p.C.Intn(2)] + ":" + strconv.Itoa(imp.MaxID))
 			}
+			if extra && p.C.Intn(3) == 0 {
+				// open content inside an import descriptor
+				p.w(",")
+				p.space(false)
+				p.w([]string{"$0:3", "comment:\"x\"", "symbols:[\"no\"]"}[p.C.Intn(3)])
+			}
 			p.space(false)
 			p.w("}")
 			p.space(false)
@@ -188,7 +194,7 @@ func (p *Printer) LST(imports []refbin.Import, symbols []refbin.Slot, appendMode
 	}
 	if extra && p.C.Intn(2) == 0 {
 		sep()
-		p.w("foo:1")
+		p.w([]string{"foo:1", "$0:1", "foo:1"}[p.C.Intn(3)])
 	}
 	if p.C.Intn(3) == 2 {
 		doSymbols()
@@ -199,7 +205,7 @@ func (p *Printer) LST(imports []refbin.Import, symbols []refbin.Slot, appendMode
 	}
 	if extra {
 		sep()
-		p.w([]string{"name:\"x\"", "version:3", "max_id:2", "bar:[{}]"}[p.C.Intn(4)])
+		p.w([]string{"name:\"x\"", "version:3", "max_id:2", "bar:[{}]", "$0:{symbols:[\"no\"]}"}[p.C.Intn(5)])
 	}
 	p.w("}")
 	p.space(true)
